@@ -256,6 +256,7 @@ class SedovScale(Obligation):
 
 
 class GuderleyScale(Obligation):
+    replay_limit_s = 300        # the real Guderley solve takes 20-40 s on an idle core, several times that under load
     def __init__(self, n, gamma):
         from . import guderley_common as G
         self.G = G
